@@ -245,3 +245,77 @@ def base_of_gemini(g):
 def label(s):
     keys = [k for k in s if k not in ("x", "n", "d", "cls")]
     return s["cls"] + "(" + ", ".join(f"{k}={s[k]}" for k in keys) + f") on n={s['n']}, d={s['d']}"
+
+
+# ---------------------------------------------------------------------------------------------------------------
+# Kauri
+
+KAURI_KERNELS = sorted(gens.KERNEL_PARAM_NAMES)
+
+
+@st.composite
+def kauri_spec(draw, n_max=30, d_max=4, kinds=("grid", "normal", "grid2", "const")):
+    n = draw(st.integers(1, n_max))
+    d = draw(st.integers(1, d_max))
+    leaf = draw(st.integers(1, 4))
+    leaf = min(leaf, n)  # ensure_min_samples = min_samples_leaf
+    split = draw(st.integers(2 * leaf, 2 * leaf + 4))
+    form = draw(st.sampled_from(["named", "named", "precomputed", "callable", "psd", "indef"]))
+    s = {"cls": "Kauri", "n": n, "d": d,
+         "max_clusters": draw(st.integers(1, 6)),
+         "max_depth": draw(st.one_of(st.none(), st.integers(1, 5))),
+         "min_samples_split": split, "min_samples_leaf": leaf,
+         "max_features": draw(st.one_of(st.none(), st.integers(1, d + 1))),
+         "max_leaves": draw(st.one_of(st.none(), st.integers(2, 8))),
+         "kernel": {"fam": "kernel", "form": form, "name": draw(st.sampled_from(KAURI_KERNELS)), "params": {},
+                    "aseed": draw(gens.seeds)},
+         "random_state": draw(st.integers(0, 10 ** 6)),
+         "x": {"d": d, "xseed": draw(gens.seeds), "xkind": draw(st.sampled_from(list(kinds)))}}
+    return s
+
+
+def build_kauri_data(s):
+    rs = np.random.RandomState(s["x"]["xseed"])
+    n, d = s["n"], s["d"]
+    kind = s["x"]["xkind"]
+    if kind == "grid":
+        X = rs.randint(-2, 3, size=(n, d)).astype(float)
+    elif kind == "grid2":
+        X = rs.randint(0, 2, size=(n, d)).astype(float)
+    elif kind == "const":
+        X = rs.randn(n, d)
+        X[:, rs.randint(d)] = 1.0
+    else:
+        X = rs.randn(n, d)
+    if s["kernel"]["name"] in gens.NONNEG_KERNELS and s["kernel"]["form"] in ("named", "precomputed", "callable"):
+        X = np.abs(X)
+    return np.ascontiguousarray(X, dtype=np.float64)
+
+
+def kauri_ref_kernel(s, X):
+    k = s["kernel"]
+    if k["form"] in ("psd", "indef"):
+        return gens.ref_affinity(k, X)
+    Kmat = pairwise_kernels(X, metric=k["name"])
+    if k["form"] == "callable":
+        Kmat = 1.5 * Kmat
+    return np.ascontiguousarray(Kmat, dtype=np.float64)
+
+
+def build_kauri(s, X=None):
+    if X is None:
+        X = build_kauri_data(s)
+    k = s["kernel"]
+    kw = {key: s[key] for key in ("max_clusters", "max_depth", "min_samples_split", "min_samples_leaf", "max_features",
+                                   "max_leaves", "random_state")}
+    y = None
+    if k["form"] == "named":
+        kw["kernel"] = k["name"]
+    elif k["form"] == "callable":
+        from sklearn.metrics.pairwise import PAIRWISE_KERNEL_FUNCTIONS
+        f = PAIRWISE_KERNEL_FUNCTIONS[k["name"]]
+        kw["kernel"] = lambda a, b: 1.5 * float(f(a.reshape(1, -1), b.reshape(1, -1))[0, 0])
+    else:
+        kw["kernel"] = "precomputed"
+        y = kauri_ref_kernel(s, X)
+    return tree.Kauri(**kw), y
